@@ -73,11 +73,11 @@ Qed.
 
 End C04.
 
-(* which documents are framed: every representable document below 2 GiB whose
-   binary subtypes the validator tolerates — the validator accepts its canonical
-   encoding and the decoder inverts it *)
+(* which documents are framed: every representable document below 2 GiB
+   (representable includes: no binary subtype in 0x06..0x7f, [value_ok]) — the
+   validator accepts its canonical encoding and the decoder inverts it *)
 Theorem C04_frame_ok : forall d,
-  doc_ok d = true -> small (enc_doc d) -> doc_bin_ok d = true ->
+  doc_ok d = true -> small (enc_doc d) ->
   validate (enc_doc d) = true /\ dec_doc (enc_doc d) = Some (d, []).
 Proof. exact frame_ok_enc. Qed.
 
@@ -117,7 +117,7 @@ Hypothesis deflate_wf : forall p, wf_bytes (deflate p).
    document-level reader of Model/Codec.v used by C01–C11, so their round-trip
    theorems transfer *)
 Theorem C04_bridge : forall meta s d0 ds,
-  doc_ok d0 = true -> small (enc_doc d0) -> doc_bin_ok d0 = true ->
+  doc_ok d0 = true -> small (enc_doc d0) ->
   (N.of_nat (length (flatten_doc d0)) < 2 ^ 32)%N -> (N.of_nat (length ds) < 2 ^ 32)%N ->
   (N.of_nat (length ds) <= reader_limit)%N ->
   (N.of_nat (length (flatten_doc d0)) * N.of_nat (length ds) <= reader_limit)%N ->
@@ -170,6 +170,41 @@ Example C04_example :
   read_stream inflate reader_limit None (enc_stream [d1; d2]) = ([], false).
 Proof.
   intros inflate d1 d2. split.
-  - repeat constructor; (apply frame_ok_enc; [reflexivity|unfold small; vm_compute; reflexivity|reflexivity]).
+  - repeat constructor; (apply frame_ok_enc; [reflexivity|unfold small; vm_compute; reflexivity]).
   - repeat split; vm_compute; reflexivity.
 Qed.
+
+(* ---- oracle = theorem: the executable oracle c04_ok of Model/FrameOk.v, which the
+   driver ocaml/c04_run.ml evaluates on the implementation's observations of a damaged
+   stream, accepts the model reader's own observation of it.  The situation of the check:
+   a seed stream and a mutant agree on a prefix made of the framed documents [good] (whose
+   chunk documents all decode: cs0); [m] = the number of chunk documents among them = the
+   "chunks lying wholly before the first damaged byte" that checks/c04.py computes.  For
+   ANY continuations [rest] (mutant) and [seed_rest] (seed), any inflate, size limit and
+   evaluation cap: the model reader delivers cs0 as its first m chunks on both streams
+   (the oracle's [intact]), delivers at least m chunks, and - all five reader entry points
+   reporting the model's error flag, which is what the driver takes for [damaged] - the
+   verdict is true.  Reflected form of C04_prefix_intact (proofs in
+   Proofs/OracleSoundC04.v).  The content of [damaged] itself (error flag <-> not a
+   complete well-formed stream) is C04_error_iff ---- *)
+From FV.Model Require Import Instance.
+From FV.Proofs Require OracleSoundC04.
+
+Theorem C04_oracle_sound : forall (inflate : bytes -> option bytes) (limit : N) (cap : option N)
+    good rest seed_rest cs0,
+  Forall frame_ok good ->
+  read_chunks_b inflate limit cap None good = (cs0, None) ->
+  let m := length (filter OracleSoundC04.is_chunk_doc good) in
+  let r := read_stream inflate limit cap (enc_stream good ++ rest) in
+  let rs := read_stream inflate limit cap (enc_stream good ++ seed_rest) in
+  firstn m (fst r) = cs0 /\ firstn m (fst rs) = cs0 /\
+  c04_ok (snd r) (repeat (snd r) 5) m (length (fst r)) true = true.
+Proof. exact OracleSoundC04.c04_oracle_sound. Qed.
+Print Assumptions C04_oracle_sound.
+
+(* the driver's [damaged] is the error flag of the byte-level model reader in its
+   executable instance (trivial codec, limit reader_limit, evaluation cap delta_cap) *)
+Theorem C04_damaged_is_error_flag : forall bs,
+  fst (c04_damaged bs) = snd (read_stream inflate_flag reader_limit (Some delta_cap) bs).
+Proof. exact OracleSoundC04.c04_damaged_spec. Qed.
+Print Assumptions C04_damaged_is_error_flag.
